@@ -48,18 +48,33 @@ ENUM = 'class {name}(Enum):\n    """Represent {name}."""\n\n    A = "a"\n\n\n'
 CONSTRAINED = ('@invariant(lambda self: len(self) >= 1, "Non-empty")\nclass {name}(str, DBC):\n'
                '    """Represent {name}."""\n\n\n')
 
+def _user(first: str, second: str) -> str:
+    return (_cls("User", ["first", "second"]).replace("first: int", f"first: {first}")
+            .replace("second: int", f"second: {second}"))
+
+
+# (description, meta-model body, the two types that the properties ``first`` and ``second`` of ``User`` refer to / None)
 CASES: List[Tuple[str, str]] = [
     ("two properties of one class", _cls("Something", ["foo_bar", "foo_Bar"])),
     ("inherited property and own property",
-     "@serialization(with_model_type=True)\n" + _cls("Parent", ["foo_bar"]) + _cls("Child", ["foo_Bar"], parent="Parent", inherited=["foo_bar"])),
-    ("two classes", _cls("Some_node", ["x"]) + _cls("Some_NODE", ["y"])),
-    ("class and enumeration", _cls("Some_node", ["x"]) + ENUM.format(name="Some_NODE")
-     + _cls("User", ["z"]).replace("z: int", "z: Some_NODE").replace("z: int", "z: Some_NODE")),
+     "@serialization(with_model_type=True)\n" + _cls("Parent", ["foo_bar"])
+     + _cls("Child", ["foo_Bar"], parent="Parent", inherited=["foo_bar"])),
+    ("two classes", _cls("Some_node", ["x"]) + _cls("Some_NODE", ["y"]) + _user("Some_node", "Some_NODE")),
+    ("two classes with the same content", _cls("Some_node", ["x"]) + _cls("Some_NODE", ["x"])
+     + _user("Some_node", "Some_NODE")),
+    ("two empty siblings with the same content",
+     "@abstract\n@serialization(with_model_type=True)\n" + _cls("Element", ["x"])
+     + _cls("Data_element", [], parent="Element", inherited=["x"])
+     + _cls("Data_Element", [], parent="Element", inherited=["x"]) + _user("Data_element", "Data_Element")),
+    ("class and enumeration", _cls("Some_node", ["x"]) + ENUM.format(name="Some_NODE") + _user("Some_node", "Some_NODE")),
     ("class and constrained primitive", _cls("Some_node", ["x"]) + CONSTRAINED.format(name="Some_NODE")
-     + _cls("User", ["z"]).replace("z: int", "z: Some_NODE")),
-    ("two enumerations", ENUM.format(name="Some_kind") + ENUM.format(name="Some_KIND")
-     + _cls("User", ["a", "b"]).replace("a: int", "a: Some_kind").replace("b: int", "b: Some_KIND")),
-    ("no collision (control)", _cls("Some_node", ["foo_bar", "foo_baz"]) + _cls("Other_node", ["foo_bar"])),
+     + _user("Some_node", "Some_NODE")),
+    ("two enumerations with the same literals", ENUM.format(name="Some_kind") + ENUM.format(name="Some_KIND")
+     + _user("Some_kind", "Some_KIND")),
+    ("two enumerations with different literals", ENUM.format(name="Some_kind")
+     + ENUM.format(name="Some_KIND").replace('A = "a"', 'B = "b"') + _user("Some_kind", "Some_KIND")),
+    ("no collision (control)", _cls("Some_node", ["foo_bar", "foo_baz"]) + _cls("Other_node", ["foo_bar"])
+     + _user("Some_node", "Other_node")),
 ]
 
 XS = "{http://www.w3.org/2001/XMLSchema}"
@@ -84,12 +99,42 @@ def _json_problems(path: pathlib.Path) -> List[str]:
                 for k in sorted(set(map(str, req))):
                     if [str(r) for r in req].count(k) > 1:
                         problems.append(f"a 'required' list names {k!r} twice")
+            for key in ("enum", "oneOf", "anyOf", "allOf"):
+                lst = x.get(key)
+                if isinstance(lst, list):
+                    dumped = [json.dumps(v, sort_keys=True) for v in lst]
+                    for v in sorted(set(dumped)):
+                        if dumped.count(v) > 1:
+                            problems.append(f"a {key!r} list of schema.json has the entry {v[:60]} {dumped.count(v)} times")
             for v in x.values():
                 walk(v)
         elif isinstance(x, list):
             for v in x:
                 walk(v)
     walk(schema)
+    # two different types of the meta-model may not end up as one definition: the properties ``first`` and ``second`` of
+    # the class User refer to different types (unless one is inlined)
+    for name, definition in (schema.get("definitions") or {}).items():
+        dumped = json.dumps(definition, sort_keys=True)
+        if '"first"' in dumped and '"second"' in dumped:
+            def find(d: Any, key: str) -> Any:
+                if isinstance(d, dict):
+                    if key in d and isinstance(d[key], dict):
+                        return d[key]
+                    for v in d.values():
+                        r = find(v, key)
+                        if r is not None:
+                            return r
+                elif isinstance(d, list):
+                    for v in d:
+                        r = find(v, key)
+                        if r is not None:
+                            return r
+                return None
+            a, b = find(definition, "first"), find(definition, "second")
+            if a is not None and b is not None and "$ref" in json.dumps(a) and json.dumps(a, sort_keys=True) == json.dumps(b, sort_keys=True):
+                problems.append(f"the properties first and second of {name} refer to two different types of the "
+                                f"meta-model, yet to one definition of schema.json: {json.dumps(a)[:80]}")
     try:
         import jsonschema
         jsonschema.Draft201909Validator.check_schema(schema)
@@ -118,6 +163,14 @@ def _xsd_problems(path: pathlib.Path) -> List[str]:
         for n in sorted(set(names)):
             if names.count(n) > 1:
                 problems.append(f"schema.xsd declares the top-level {space} {n!r} {names.count(n)} times")
+    firsts = [e for e in top.iter(XS + "element") if e.get("name") == "first"]
+    seconds = [e for e in top.iter(XS + "element") if e.get("name") == "second"]
+    if firsts and seconds:
+        def shape(e: Any) -> str:
+            return ET.tostring(e, encoding="unicode").replace('name="first"', "").replace('name="second"', "")
+        if (firsts[0].get("type") is not None or len(firsts[0])) and shape(firsts[0]) == shape(seconds[0]):
+            problems.append(f"the elements first and second refer to two different types of the meta-model, yet to one "
+                            f"definition of schema.xsd: {shape(firsts[0])[:120]}")
     for model in top.iter():
         if model.tag in (XS + "sequence", XS + "all", XS + "choice"):
             names = [e.get("name") for e in model if e.tag == XS + "element" and e.get("name") is not None]
